@@ -4,6 +4,7 @@ failing resolver) pairs a sequential evaluation runs into; Exec_Trace demands: n
 reported failure is in that set, its path is right (list indices free for batch resolvers,
 which fail all their destinations at once), safe/wrapped errors carry no path and never the
 inner text."""
+from checks import conn_common as cc
 from checks import exec_common as ex
 from lib import vlib
 
@@ -22,15 +23,21 @@ def run(tier, seed, replay=None):
                         args=["-seed", seed + 5, "-runs", 4, "-fail", 2]))
     v = vlib.Verdict(PROP)
     st = ex.run_batches(PROP, v, batches)
+    # the websocket half of the statement (only safe texts forwarded, generic message otherwise, an initially
+    # failing subscription reported once and then closed): real connection traces validated against Conn.tla
+    ws = cc.validate(PROP, v, 150 if quick else 1500, seed + 70, [2])
     rc = v.finish()
+    if not ws["coverage"].get("sub.fail/initial"):
+        raise vlib.Inconclusive("the connection driver never produced an initially failing subscription")
     failing = st["outcomes"].get("error", 0)
     ex.evidence(PROP, tier, seed, st, v,
                 "seeded random queries and the TLC-enumerated grammar, each with a random set of <= 2-3 failing resolvers "
                 "(plain error, SafeError, WrapAsSafeError, panic) placed on fields in plain, Expensive and batch modes, run under "
                 "4 (mode assignment, scheduler) configurations; distinct = different (data graph, query text, failure set)",
                 ["which of several failures is reported is free (set membership), as the statement says",
-                 "the websocket half of the statement (generic message, one error then closed) is decided by the Conn check"],
-                extra={"failing_runs": failing})
+                 "the websocket half of the statement is decided on %d real connection scenarios validated against Conn.tla "
+                 "(failing resolvers with plain and client-safe errors; every message checked to carry no inner text)" % ws["scenarios"]],
+                extra={"failing_runs": failing, "websocket_scenarios_validated": ws["scenarios"], "websocket_events_validated": ws["events"]})
     if failing < 20:
         raise vlib.Inconclusive("only %d failing runs were produced; the failure part would be vacuous" % failing)
     return rc
